@@ -13,7 +13,14 @@ let rec range a b = if a >= b then [] else a :: range (a + 1) b
 let content_good d n = List.map (unit_good d) (range 0 n)
 let content_bad d n = if n = 0 then [] else List.map (unit_good d) (range 0 (n - 1)) @ [unit_bad d]
 
-type blobinfo = { bid : int; bchunks : int; bman : bool }
+(* Store.AutoSaveIndex of the script being evaluated (field autosave=0|1, default 1) *)
+let autosv = ref true
+let bad_ids : int list ref = ref []
+
+(* bbad: manifest media type but bytes that do not decode.  Store.Push stores such content,
+   fails to index it and removes it again = the push of the bytes followed by their plain
+   delete (a composite call); Store.Tag refuses it (no effect). *)
+type blobinfo = { bid : int; bchunks : int; bman : bool; bbad : bool }
 
 let parse_script (s : string) =
   let parts = String.split_on_char ';' s in
@@ -26,7 +33,7 @@ let parse_script (s : string) =
   let items x = List.filter (fun y -> y <> "") (String.split_on_char ',' x) in
   let blobs = List.map (fun x ->
       match String.split_on_char ':' x with
-      | [a; b; c] -> { bid = int_of_string a; bchunks = int_of_string b; bman = (c = "1") }
+      | [a; b; c] -> { bid = int_of_string a; bchunks = int_of_string b; bman = (c = "1"); bbad = (c = "2") }
       | _ -> failwith "blob") (items (field "blobs")) in
   let find d = List.find (fun b -> b.bid = d) blobs in
   let num x = n_of_int (int_of_string x) in
@@ -36,6 +43,12 @@ let parse_script (s : string) =
        reopen            oci.New on the existing directory: no mutation *)
   let parse_call l =
     match l with
+    | ["push"; d] when (find (int_of_string d)).bbad ->
+      let b = find (int_of_string d) in
+      [Push (n_of_int b.bid, content_good b.bid b.bchunks, false); Delete (n_of_int b.bid)]
+    | ["tag"; d; _] when (find (int_of_string d)).bbad ->
+      (* no effect: encoded as the Untag of a reference that cannot exist (no micro-step, state unchanged) *)
+      [Untag (n_of_int (900000000 + int_of_string d))]
     | ["push"; d] -> let b = find (int_of_string d) in [Push (n_of_int b.bid, content_good b.bid b.bchunks, b.bman)]
     | ["pushbad"; d] -> let b = find (int_of_string d) in [Push (n_of_int b.bid, content_bad b.bid b.bchunks, b.bman)]
     | ["tag"; d; r] -> [Tag (num d, num r)]
@@ -53,6 +66,8 @@ let parse_script (s : string) =
     match String.split_on_char ':' x with
     | "crash" :: j :: rest -> (parse_call rest, Some (int_of_string j))
     | l -> (parse_call l, None) in
+  autosv := (field "autosave" <> "0");
+  bad_ids := List.map (fun b -> b.bid) (List.filter (fun b -> b.bbad) blobs);
   (blobs, List.map parse_hist (items (field "hist")), parse_call (String.split_on_char ':' (field "final")))
 
 (* digest-and-size verification: the name of the blob whose content this is, 0 for anything else *)
@@ -66,12 +81,13 @@ let shuffle _ l = l
 let inplace = src_inplace
 let ufirst = src_unlink_first
 
+
 let fname p =
   match p with
   | FLayout -> "L" | FIndex -> "I" | FIndexTmp _ -> "IT" | FLayoutTmp _ -> "LT"
   | FBlob d -> "B" ^ string_of_int (int_of_n d)
   | FIngest (d, _) -> "T" ^ string_of_int (int_of_n d)
-let dname d = match d with DBlobs -> "blobs" | DAlg a -> (if int_of_n a = 0 then "blobs/sha256" else "blobs/sha512") | DIngest -> "ingest"
+let dname d = match d with DBlobs -> "blobs" | DAlg a -> (match int_of_n a with 0 -> "blobs/sha256" | 1 -> "blobs/sha512" | _ -> "blobs/sha384") | DIngest -> "ingest"
 
 let show_step m =
   match m with
@@ -118,7 +134,7 @@ let show_fs blobs ctr (fs : fS) =
     List.map (fun c -> FLayoutTmp (nat_of_int c)) cs @
     List.concat (List.map (fun b -> FBlob (n_of_int b.bid) :: List.map (fun c -> FIngest (n_of_int b.bid, nat_of_int c)) cs) blobs) in
   let ftoks = List.concat (List.map (fun p -> match fs.files p with Some f -> [show_file p f] | None -> []) paths) in
-  let dtoks = List.concat (List.map (fun d -> if fs.dirs d then ["D:" ^ dname d] else []) [DBlobs; DAlg (n_of_int 0); DAlg (n_of_int 1); DIngest]) in
+  let dtoks = List.concat (List.map (fun d -> if fs.dirs d then ["D:" ^ dname d] else []) [DBlobs; DAlg (n_of_int 0); DAlg (n_of_int 1); DAlg (n_of_int 2); DIngest]) in
   String.concat " " (List.sort compare (ftoks @ dtoks))
 
 let show_res r = match r with ROk -> "ok" | RExists -> "exists" | RNotFound -> "notfound" | RMismatch -> "mismatch"
@@ -129,13 +145,13 @@ let rec nat_len l = match l with [] -> 0 | _ :: r -> 1 + nat_len r
    ones completed (Proofs/OciCrash.v seq_cut); returns the store reopened on what was left *)
 let rec crash_call h s ops j =
   match ops with
-  | [] -> run_hop h shuffle inplace ufirst s (Crashed (SaveIndex, nat_of_int 0))
+  | [] -> run_hop h shuffle inplace ufirst !autosv s (Crashed (SaveIndex, nat_of_int 0))
   | o :: r ->
-    let n = nat_len (op_steps h shuffle inplace ufirst s o) in
-    if j <= n then run_hop h shuffle inplace ufirst s (Crashed (o, nat_of_int j))
-    else crash_call h (run_op h shuffle inplace ufirst s o) r (j - n)
+    let n = nat_len (op_steps h shuffle inplace ufirst !autosv s o) in
+    if j <= n then run_hop h shuffle inplace ufirst !autosv s (Crashed (o, nat_of_int j))
+    else crash_call h (run_op h shuffle inplace ufirst !autosv s o) r (j - n)
 
-let run_call h s ops = List.fold_left (fun s o -> run_op h shuffle inplace ufirst s o) s ops
+let run_call h s ops = List.fold_left (fun s o -> run_op h shuffle inplace ufirst !autosv s o) s ops
 
 let run_hist h hist =
   List.fold_left (fun s (ops, c) ->
@@ -146,8 +162,8 @@ let rec locate h s ops j =
   match ops with
   | [] -> None
   | o :: r ->
-    let n = nat_len (op_steps h shuffle inplace ufirst s o) in
-    if j <= n then Some (s, o) else locate h (run_op h shuffle inplace ufirst s o) r (j - n)
+    let n = nat_len (op_steps h shuffle inplace ufirst !autosv s o) in
+    if j <= n then Some (s, o) else locate h (run_op h shuffle inplace ufirst !autosv s o) r (j - n)
 
 (* initialisation: final=init, no history: the first oci.New on an empty directory *)
 let is_init sc =
@@ -172,24 +188,34 @@ let () =
       let h = hfun blobs in
       let s = run_hist h hist in
       Printf.printf "%s\n" (String.trim (Printf.sprintf "%s STEPS %s" id
-        (String.concat " " (List.map show_step (steps_seq h shuffle inplace ufirst s fin)))))
+        (String.concat " " (List.map show_step (steps_seq h shuffle inplace ufirst !autosv s fin)))))
     | id :: "K" :: j :: sc :: _ ->
       let (blobs, hist, fin) = parse_script sc in
       let h = hfun blobs in
       let s = run_hist h hist in
       let j = int_of_string j in
-      let fsk = crash_seq h shuffle inplace ufirst s fin (nat_of_int j) in
+      let fsk = crash_seq h shuffle inplace ufirst !autosv s fin (nat_of_int j) in
       let univ = List.map (fun b -> n_of_int b.bid) blobs in
       let rec_ok =
         match locate h s fin j with
-        | Some (sj, o) -> recoverableb h univ sj.sfs fsk (run_op h shuffle inplace ufirst sj o).sfs
+        | Some (sj, o) -> recoverableb h univ sj.sfs fsk (run_op h shuffle inplace ufirst !autosv sj o).sfs
         | None -> let s1 = run_call h s fin in recoverableb h univ s1.sfs fsk s1.sfs in
       Printf.printf "%s STATE %s%s\n" id (show_fs blobs (int_of_nat s.sctr + nat_len fin + 1) fsk)
-        (if rec_ok then "" else " MODEL-NOT-RECOVERABLE")
+        (* with AutoSaveIndex off the predicate is known to fail (C10_crash_safe_refuted_autosave_off) *)
+        (if rec_ok || not !autosv then "" else " MODEL-NOT-RECOVERABLE")
     | id :: "R" :: sc :: _ ->
       let (blobs, hist, fin) = parse_script sc in
       let h = hfun blobs in
-      let res s ops = match ops with [] -> "ok" | o :: _ -> show_res (op_res h s o) in
+      let res s ops =
+        match ops with
+        | [] -> "ok"
+        | [Untag r] when int_of_n r >= 900000000 ->
+          (* Tag of an undecodable manifest: refused when the bytes are there, not found otherwise *)
+          if exists_file s.sfs (FBlob (n_of_int (int_of_n r - 900000000))) then "invalid" else "notfound"
+        | [Push (d, _, false); Delete d'] when d = d' ->
+          (* undecodable manifest: stored, not indexable, removed again *)
+          (match op_res h s (List.hd ops) with ROk -> "invalid" | r -> show_res r)
+        | o :: _ -> show_res (op_res h s o) in
       let rec go s calls acc =
         match calls with
         | [] -> List.rev acc
